@@ -85,13 +85,24 @@ NonZeroArea(G) ==
     \A i \in DOMAIN G : Cross(VSub(G[i][2], G[i][1]), VSub(G[i][3], G[i][1])) # <<0, 0, 0>>
 
 (***************************************************************************)
-(* NormalSide: a supplied vertex normal points to the outer side of an     *)
-(* incident face: n . ((b - a) x (c - a)) > 0.  Only the sign matters, so  *)
-(* positions are coarsened by 2^6 (|coordinate| <= 2^8, edge <= 2^9, cross *)
-(* component <= 2^19) and normals are expected scaled to |n| <= 2^8:       *)
-(* the dot product stays below 3 * 2^27.                                   *)
+(* NormalSide: a supplied vertex normal n points to the outer side of an   *)
+(* incident face: n . ((b - a) x (c - a)) > 0.  Only the sign matters.     *)
+(* The edge vectors are taken at full resolution and, only when a triangle *)
+(* is large, both are divided by the same power of two so that their       *)
+(* components stay within 2^10 (a relative perturbation of the edge        *)
+(* directions below 2^-9): cross components <= 2^21, normals are expected  *)
+(* scaled to |n| <= 2^8, the dot product stays below 3 * 2^29.  (A first   *)
+(* version coarsened the POSITIONS by 2^6; pole fans of 56 x 62 spheres    *)
+(* then collapsed to zero area and were rejected - a false alarm.)         *)
 (***************************************************************************)
-Coarse(p) == <<(p[1] + 32) \div 64, (p[2] + 32) \div 64, (p[3] + 32) \div 64>>
-FaceNormalCoarse(g) == Cross(VSub(Coarse(g[2]), Coarse(g[1])), VSub(Coarse(g[3]), Coarse(g[1])))
-NormalSide(g, n) == Dot(n, FaceNormalCoarse(g)) > 0
+MaxAbs3(p) == MaxI(AbsI(p[1]), MaxI(AbsI(p[2]), AbsI(p[3])))
+RECURSIVE ShiftFor(_, _)
+ShiftFor(m, d) == IF m \div d <= 1024 THEN d ELSE ShiftFor(m, 2 * d)
+RDiv(x, d) == (x + d \div 2) \div d
+FaceNormalSmall(g) ==
+    LET e1 == VSub(g[2], g[1])
+        e2 == VSub(g[3], g[1])
+        d == ShiftFor(MaxI(MaxAbs3(e1), MaxAbs3(e2)), 1)
+    IN Cross(<<RDiv(e1[1], d), RDiv(e1[2], d), RDiv(e1[3], d)>>, <<RDiv(e2[1], d), RDiv(e2[2], d), RDiv(e2[3], d)>>)
+NormalSide(g, n) == Dot(n, FaceNormalSmall(g)) > 0
 =============================================================================
